@@ -172,6 +172,20 @@ Definition template_make_globals (s : store) (global_data overlay args : addr) :
   let '(s1, ra) := alloc s (read s args) in
   (s1, RChain [RDict ra; RDict overlay; RDict global_data]).
 
+(** builtin/loaders/mixins.py:_check_cache / _check_cache_async, on a cache hit
+    with no render context (a second [get_template] of the same name):
+      cached_template.global_data = env.make_globals(globals)
+    The cached Template keeps its [overlay_data] (the loader's matter); a later
+    [render( **args )] then builds [make_globals(dict(args))] from the NEW
+    global_data.  [gd_old] (the global_data of the earlier fetch) is dropped. *)
+Definition cache_hit_rebind (s : store) (eg tg2 : addr) (gd_old ov : addr) : store * (addr * addr) :=
+  let '(s1, gd2) := env_make_globals s eg tg2 in
+  (s1, (gd2, ov)).
+
+Definition cache_hit_globals (s : store) (eg tg2 gd_old ov args : addr) : store * mref :=
+  let '(s1, (gd2, ov')) := cache_hit_rebind s eg tg2 gd_old ov in
+  template_make_globals s1 gd2 ov' args.
+
 (** * RenderContext *)
 Record state := {
   store_of : store;
